@@ -19,10 +19,12 @@ type taint struct {
 	work   []*ssa.Function
 	inWork map[*ssa.Function]bool
 	objs   map[ssa.Value]bool // local buffers that received tainted content
+	fields map[*types.Var]bool // struct fields that received tainted values (experimental heap taint)
+	heap   bool
 }
 
 func newTaint(p *Program) *taint {
-	return &taint{p: p, vals: map[ssa.Value]bool{}, funcs: map[*ssa.Function]bool{}, params: map[*ssa.Parameter]bool{}, inWork: map[*ssa.Function]bool{}, objs: map[ssa.Value]bool{}}
+	return &taint{p: p, vals: map[ssa.Value]bool{}, funcs: map[*ssa.Function]bool{}, params: map[*ssa.Parameter]bool{}, inWork: map[*ssa.Function]bool{}, objs: map[ssa.Value]bool{}, fields: map[*types.Var]bool{}}
 }
 
 func (t *taint) push(f *ssa.Function) {
@@ -97,6 +99,11 @@ func (t *taint) analyse(f *ssa.Function) {
 					if t.isTainted(x.X) {
 						mark(x)
 					}
+					if t.heap {
+						if fv := fieldVar(x); fv != nil && t.fields[fv] {
+							mark(x)
+						}
+					}
 				case *ssa.Field:
 					if t.isTainted(x.X) {
 						mark(x)
@@ -153,6 +160,14 @@ func (t *taint) analyse(f *ssa.Function) {
 						mark(x)
 					}
 				case *ssa.Store:
+					if t.heap && t.isTainted(x.Val) {
+						if fa, ok := x.Addr.(*ssa.FieldAddr); ok {
+							if fv := fieldVar(fa); fv != nil && !t.fields[fv] {
+								t.fields[fv] = true
+								changed = true
+							}
+						}
+					}
 					if t.isTainted(x.Val) {
 						if base, _ := memRoot(x.Addr); base != nil {
 							if _, ok := base.(*ssa.Alloc); ok && !t.objs[base] {
@@ -307,4 +322,16 @@ func counterOf(v ssa.Value) *ssa.Phi {
 		}
 	}
 	return nil
+}
+
+func fieldVar(fa *ssa.FieldAddr) *types.Var {
+	pt, ok := fa.X.Type().Underlying().(*types.Pointer)
+	if !ok {
+		return nil
+	}
+	st, ok := pt.Elem().Underlying().(*types.Struct)
+	if !ok || fa.Field >= st.NumFields() {
+		return nil
+	}
+	return st.Field(fa.Field)
 }
